@@ -132,7 +132,7 @@ func BuildConfig(sc *world.Scenario, w *world.World) configuration.Configuration
 		case "hwmon":
 			c.HwMon = &configuration.HwMonSensorConfig{Platform: PlatformOf(&sc.Chips[s.Chip]), Index: TempIndex(sc, s.Chip, s.TempN)}
 		case "file":
-			c.File = &configuration.FileSensorConfig{Path: st.Path}
+			c.File = &configuration.FileSensorConfig{Path: cfgPath(st)}
 		case "cmd":
 			c.Cmd = &configuration.CmdSensorConfig{Exec: st.Exe, Args: []string{}}
 		}
